@@ -59,8 +59,15 @@ func vrfRegion(id uint64, peersVary bool) *RegionInfo {
 	size := v.Int64("size")
 	v.Assume(v.And(size >= 0, size <= 1000))
 	opts := []RegionCreateOption{SetApproximateSize(size)}
-	if peersVary && v.Choice("otherPending", 2) == 1 {
-		opts = append(opts, WithPendingPeers([]*metapb.Peer{op}))
+	if peersVary {
+		// the pending peer is none, the other peer, or the leader's own peer: the last lets a
+		// pending entry move between stores while peers, leader and count stay the same
+		switch v.Choice("pending", 3) {
+		case 1:
+			opts = append(opts, WithPendingPeers([]*metapb.Peer{op}))
+		case 2:
+			opts = append(opts, WithPendingPeers([]*metapb.Peer{lp}))
+		}
 	}
 	return NewRegionInfo(&metapb.Region{Id: id, StartKey: start, EndKey: end, Peers: []*metapb.Peer{lp, op}}, lp, opts...)
 }
@@ -200,7 +207,7 @@ func vLessB(a, b []byte) bool { return v.BytesLess(a, b) }
 func vrfStats(r *RegionsInfo, spec []*RegionInfo) {
 	for st := uint64(1); st <= 2; st++ {
 		var leaders, followers, learners, pendings int
-		var leaderSize, followerSize, learnerSize int64
+		var leaderSize, followerSize, learnerSize, pendingSize int64
 		for _, o := range spec {
 			for _, p := range o.GetPeers() {
 				if p.StoreId != st {
@@ -221,6 +228,7 @@ func vrfStats(r *RegionsInfo, spec []*RegionInfo) {
 			for _, p := range o.GetPendingPeers() {
 				if p.StoreId == st {
 					pendings++
+					pendingSize += o.GetApproximateSize()
 				}
 			}
 		}
@@ -228,6 +236,7 @@ func vrfStats(r *RegionsInfo, spec []*RegionInfo) {
 		v.Assert("follower-count", r.GetStoreFollowerCount(st) == followers)
 		v.Assert("learner-count", r.GetStoreLearnerCount(st) == learners)
 		v.Assert("pending-count", r.GetStorePendingPeerCount(st) == pendings)
+		v.Assert("pending-size", r.pendingPeers[st].length() == 0 || r.pendingPeers[st].TotalSize() == pendingSize)
 		v.Assert("leader-size", r.GetStoreLeaderRegionSize(st) == leaderSize)
 		v.Assert("follower-size", r.GetStoreFollowerRegionSize(st) == followerSize)
 		v.Assert("learner-size", r.GetStoreLearnerRegionSize(st) == learnerSize)
